@@ -142,4 +142,69 @@ def verify_gpio_elaborate():
     return fv
 
 
-ALL = [verify_gpio_elaborate]
+def verify_output_field_elaborate():
+    """gpio.Peripheral.Output._FieldAction.elaborate (the per-pin output bit): exactly
+         If / Elif (set != clr):   storage := set          (sync)
+         If / Elif (port.w_stb):   storage := port.w_data  (sync)      (which of the two has priority is not claimed: see below)
+         port.r_data := storage,  data := storage          (comb)
+       and nothing else; no submodule; nothing stored on the component"""
+    from vf.pyvc.engine import Exec, Path, SymObj, Opaque, find_def
+    FILE_ = "amaranth_soc/gpio.py"
+    fv = FnVerifier("gpio.Peripheral.Output._FieldAction.elaborate", [])
+    fn = find_def(FILE_, "Peripheral.Output._FieldAction.elaborate")
+    ex = Exec(FILE_, "Peripheral.Output._FieldAction", axioms=[])
+    log = hdlrec.Log()
+    m, values = hdlrec.module(log)
+    ex.contracts["Module"] = lambda ex_, recv, a, kw, q, node: [(m, q)]
+    self_ = SymObj("_FieldAction", "self")
+    port = SymObj("FieldPort", "self.port")
+    for nm in ("r_data", "r_stb", "w_data", "w_stb"):
+        port.init_fields[nm] = hdlrec.signal(values, "port." + nm)
+    self_.init_fields["port"] = port
+    for nm in ("data", "set", "clr", "_storage"):
+        self_.init_fields[nm] = hdlrec.signal(values, nm)
+    orig_cmp = ex.e_Compare
+
+    def e_compare(e, p):
+        # a comparison of two hardware values is a hardware expression (recorded), not a Python truth value
+        if len(e.ops) == 1 and isinstance(e.ops[0], (ast.Eq, ast.NotEq)):
+            out = []
+            for vals, q in ex.eval_seq([e.left, e.comparators[0]], p):
+                if isinstance(vals, (list, tuple)) and all(isinstance(v, SymObj) and hasattr(v, "expr") for v in vals):
+                    out.append((values.wrap(Expr("op", type(e.ops[0]).__name__, (vals[0].expr, vals[1].expr))), q))
+                else:
+                    return orig_cmp(e, p)
+            return out
+        return orig_cmp(e, p)
+    ex.e_Compare = e_compare
+    q = Path(); q.env.update({"self": self_, "platform": Opaque("platform")})
+    outs = ex.run(fn, q)
+    fv.paths = len(outs)
+    for k, o in enumerate(outs):
+        fv.add("returns-the-module", f"path{k}", o.path.pc, z3.BoolVal(o.kind == "return" and o.value is m))
+    S = lambda n: Expr("sig", n)
+    got = [e for e in log.entries if e["kind"] == "assign"]
+    fv.add("exactly-four-statements", "all", [], z3.BoolVal(len(got) == 4))
+    sync = [e for e in got if e["domain"] == "sync"]
+    comb = [e for e in got if e["domain"] == "comb"]
+    # the two storage updates: which of them is the `If` and which the `Elif` is NOT claimed - the Output register and the SetClr register
+    # sit at different addresses of one bus, their write strobes never coincide, so the priority cannot be observed
+    def one(src, cond):
+        hits = [e for e in sync if len(e["ctx"]) == 1 and e["ctx"][0][0] in ("If", "Elif")
+                and z3.is_true(z3.simplify(z3.And(same_expr(e["dst"], S("_storage")), same_expr(e["src"], src), same_expr(e["ctx"][0][1], cond))))]
+        return len(hits) == 1
+    neq = [Expr("op", "NotEq", (S("set"), S("clr"))), Expr("op", "NotEq", (S("clr"), S("set")))]
+    fv.add("a-set-or-clear-request-loads-the-set-bit", "all", [], z3.BoolVal(len(sync) == 2 and any(one(S("set"), c) for c in neq)))
+    fv.add("a-register-write-loads-the-written-bit", "all", [], z3.BoolVal(len(sync) == 2 and one(S("port.w_data"), S("port.w_stb"))))
+    fv.add("the-first-storage-update-opens-the-chain(If)", "all", [], z3.BoolVal(len(sync) == 2 and sync[0]["ctx"][0][0] == "If"))
+    for nm, dst in (("bus-read-returns-the-storage", S("port.r_data")), ("data-output-is-the-storage", S("data"))):
+        hits = [e for e in comb if not e["ctx"] and z3.is_true(z3.simplify(z3.And(same_expr(e["dst"], dst), same_expr(e["src"], S("_storage")))))]
+        fv.add(nm, "all", [], z3.BoolVal(len(comb) == 2 and len(hits) == 1))
+    fv.add("no-submodule", "all", [], z3.BoolVal(not [e for e in log.entries if e["kind"] == "submodule"]))
+    from .hdlrec import stores_nothing_on_the_component as _frame
+    _frame(fv, ex)
+    fv.add_engine_obligations(ex)
+    return fv
+
+
+ALL = [verify_gpio_elaborate, verify_output_field_elaborate]
